@@ -139,3 +139,37 @@ func GenScenario(seed int64, idx int, class string, thorough bool) *Scenario {
 	sc.Name = fmt.Sprintf("%s/%dx%d/s%d", class, nl, nr, seed)
 	return sc
 }
+
+// GenFaultBase: a small fair scenario in which targets are slow enough that unacknowledged
+// tasks exist at most break positions.
+func GenFaultBase(seed int64, idx int) *Scenario {
+	rng := rand.New(rand.NewSource(seed))
+	pairs := [][2]int{{1, 1}, {1, 2}, {2, 1}, {2, 2}, {2, 3}, {3, 2}, {1, 3}, {3, 1}, {3, 3}, {2, 4}}
+	p := pairs[idx%len(pairs)]
+	sc := &Scenario{Class: "fault", Seed: seed, NL: p[0], NR: p[1], PeriodMS: []int{1000, 2000, 5000}[rng.Intn(3)], NWf: 1 + rng.Intn(6),
+		Scripts: map[string][]Batch{}, Final: map[string]int64{}, Targets: map[string]TargetBeh{}, Window: 1 + rng.Intn(4)}
+	for c := 1; c <= 2; c++ {
+		n := sc.NL
+		if c == 2 {
+			n = sc.NR
+		}
+		for i := 1; i <= n; i++ {
+			nt := 3 + rng.Intn(8)
+			if rng.Intn(4) == 0 {
+				nt = 0
+			}
+			name := shardName(c, i)
+			sc.Scripts[name], sc.Final[name] = genScript(rng, nt, rng.Intn(3) == 0)
+			beh := TargetBeh{PerTaskMS: 200 + rng.Intn(4)*400}
+			if rng.Intn(4) == 0 {
+				beh.AckAfterMS = 1500 + rng.Intn(4000)
+			}
+			if rng.Intn(5) == 0 {
+				beh.ConnectDelayMS = rng.Intn(3000)
+			}
+			sc.Targets[name] = beh
+		}
+	}
+	sc.HorizonS = 600
+	return sc
+}
